@@ -809,13 +809,13 @@ theorem step_ok (n : Node) (s : RState) (g : Ghost) (e : Event)
         have hterm2 : n1.term = s2.term := by rw [oterm]; exact hS1.1
         have hP3 := P_ackTerm _ _ n1.term hP2 (by rw [hterm2]; exact Nat.le_refl _)
         have htail : Chain s2 g2 [.ackTerm n1.term,
-            .ackLog (r.2.take (min (prevIdx + ents.length) r.2.length))] := by
+            .ackLog (r.2.filter (fun e => decide (e.index ≤ min (prevIdx + ents.length) r.2.length)))] := by
           refine ⟨hP2, hP3, ?_⟩
           simp only [microS, Chain]
           refine P_ackLog _ _ _ hP3 ?_
           intro a ha
           rw [oinv.2.1]
-          exact List.mem_map_of_mem (List.mem_of_mem_take ha)
+          exact List.mem_map_of_mem (List.mem_filter.mp ha).1
         refine ⟨?_, ?_, oinv.1⟩
         · refine (chain_append _ _).mpr ⟨(chain_append _ _).mpr ⟨hc1, ?_⟩, ?_⟩
           · rw [hg1]; exact ochain
